@@ -8,6 +8,12 @@
 //   SLOT folds trials | slot(trial,fold) ... (read back through extra())
 //   GBH eps patience nvalid | train,valid;train,valid;...                    stored per-round statistics of a fitted fold
 //   FIT ...                                                                  summary of one fitted model (not compared)
+//   ASM id no= ns= folds= trials= opt= mergeable= ill= refit=                  assembly of the final boosting model (extension stage,
+//   ASMPREV id | bias | W;W;..                                                 consumed by ocaml/c11_asm_driver.ml): the state of the
+//   ASMFOLD id fold rounds | bias | W;W;.. | P;P;..                            model object before the fit, the fold models of the optimum
+//   ASMFINAL id | bias | W;W;.. | P;P;.. | predict() | predict(dirty buffer)   trial and the final model; W = serialised learner (as in the
+//   ASMCUT id round rows | W;W;.. | W;W;..                                     the real gboost::result_t::done(round) on fitted learners
+//                                                                              C10 harness), P = its predictions from zero on `ns` samples
 //   FAIL ...                                                                 direct property violation (independent oracle)
 //   DONE ...
 #include "common.h"
@@ -31,7 +37,12 @@
 #include <nano/splitter.h>
 #include <nano/tuner.h>
 #include <nano/wlearner.h>
+#include <nano/wlearner/affine.h>
 #include <nano/wlearner/criterion.h>
+#include <nano/wlearner/dtree.h>
+#include <nano/wlearner/hinge.h>
+#include <nano/wlearner/stump.h>
+#include <nano/wlearner/table.h>
 
 using namespace nano;
 
@@ -792,6 +803,85 @@ ml::params_t make_fit_params(vh::rng_t& rng, std::string& desc, rsplitter_t& spl
     return ml::params_t{}.splitter(*splitter).tuner(*tuner).solver(*solver).logger(make_null_logger());
 }
 
+
+// ---- extension stage "assemble": serialisation of boosting models for the model driver -------------------------------
+std::string hexs(const double* p, tensor_size_t n)
+{
+    std::string s;
+    for (tensor_size_t i = 0; i < n; ++i) s += (i ? "," : "") + vh::hexf(p[i]);
+    return s;
+}
+std::string tables_str(const tensor4d_t& t)
+{
+    std::string s;
+    const auto  per = t.size<0>() > 0 ? t.size() / t.size<0>() : 0;
+    for (tensor_size_t i = 0; i < t.size<0>(); ++i) s += (i ? "/" : "") + hexs(t.data() + i * per, per);
+    return s;
+}
+// W: affine:f:w/b   stump:f:thr:lo/hi   hinge:f:thr:left|right:w/b   table:f:hashes:h2t:t/t/..   dtree:f_thr_next_table~..:t/t/..
+std::string wstr(const wlearner_t& w)
+{
+    if (const auto* p = dynamic_cast<const affine_wlearner_t*>(&w)) return "affine:" + std::to_string(p->feature()) + ":" + tables_str(p->tables());
+    if (const auto* p = dynamic_cast<const stump_wlearner_t*>(&w))
+        return "stump:" + std::to_string(p->feature()) + ":" + vh::hexf(p->threshold()) + ":" + tables_str(p->tables());
+    if (const auto* p = dynamic_cast<const hinge_wlearner_t*>(&w))
+        return "hinge:" + std::to_string(p->feature()) + ":" + vh::hexf(p->threshold()) + ":" + (p->hinge() == hinge_type::left ? "left" : "right") + ":" +
+               tables_str(p->tables());
+    if (const auto* p = dynamic_cast<const table_wlearner_t*>(&w))
+    {
+        std::string hs, hm;
+        for (tensor_size_t i = 0; i < p->hashes().size(); ++i) hs += (i ? "," : "") + std::to_string(static_cast<unsigned long long>(p->hashes()(i)));
+        for (tensor_size_t i = 0; i < p->hash2tables().size(); ++i) hm += (i ? "," : "") + std::to_string(static_cast<long long>(p->hash2tables()(i)));
+        return "table:" + std::to_string(p->feature()) + ":" + hs + ":" + hm + ":" + tables_str(p->tables());
+    }
+    if (const auto* p = dynamic_cast<const dtree_wlearner_t*>(&w))
+    {
+        std::string ns;
+        for (size_t i = 0; i < p->nodes().size(); ++i)
+        {
+            const auto& n = p->nodes()[i];
+            ns += (i ? "~" : "") + std::to_string(n.m_feature) + "_" + vh::hexf(n.m_threshold) + "_" + std::to_string(n.m_next) + "_" + std::to_string(n.m_table);
+        }
+        return "dtree:" + ns + ":" + tables_str(p->tables());
+    }
+    return "unknown";
+}
+std::string wsstr(const rwlearners_t& ws)
+{
+    std::string s;
+    for (const auto& w : ws) s += (s.empty() ? "" : ";") + wstr(*w);
+    return s.empty() ? "-" : s;
+}
+std::string biasstr(const tensor1d_t& b)
+{
+    return b.size() == 0 ? std::string("-") : hexs(b.data(), b.size());
+}
+// rows `chosen` of a (samples, ...) tensor as sample-major csv
+std::string rowsstr(const tensor4d_t& t, const indices_t& chosen)
+{
+    std::string s;
+    const auto  per = t.size<0>() > 0 ? t.size() / t.size<0>() : 0;
+    for (tensor_size_t i = 0; i < chosen.size(); ++i) s += (i ? "," : "") + hexs(t.data() + chosen(i) * per, per);
+    return s;
+}
+// predictions from zero of every learner on the chosen samples: P;P;..  (P = sample-major csv). NB: every learner predicts ALL the
+// samples and the chosen rows are printed: dtree_wlearner_t::do_predict on a sample list that leaves an inner node without samples
+// reads min()/max() of an empty index tensor (dataset_t::check) -- see notes/C11.md
+std::string predsstr(const dataset_t& dataset, const indices_t& all, const indices_t& chosen, const rwlearners_t& ws)
+{
+    std::string s;
+    tensor4d_t  tmp(cat_dims(all.size(), dataset.target_dims()));
+    for (const auto& w : ws)
+    {
+        tmp.zero();
+        w->predict(dataset, all, tmp.tensor());
+        s += (s.empty() ? "" : ";") + rowsstr(tmp, chosen);
+    }
+    return s.empty() ? "-" : s;
+}
+long g_asm = 0, g_asm_refits = 0, g_asm_merged = 0, g_asm_cuts = 0;
+int  g_force_pool_mask = 0; // next boosting fit: this pool (0 = random)
+
 void fit_gboost(vh::rng_t& rng)
 {
     const bool classification = (rng.range(0, 3) == 0) && !g_force_constant_target;
@@ -825,7 +915,9 @@ void fit_gboost(vh::rng_t& rng)
     std::string  pdesc;
     bool         mergeable = false;
     // half of the fits use the five basic learners, the other half may add the k-split / k-best / discrete-step tables
-    const auto   mask      = rng.range(0, 1) == 0 ? rng.range(1, 31) : rng.range(1, 255);
+    const auto   rmask     = rng.range(0, 1) == 0 ? rng.range(1, 31) : rng.range(1, 255);
+    const auto   mask      = g_force_pool_mask != 0 ? static_cast<int64_t>(g_force_pool_mask) : rmask;
+    g_force_pool_mask      = 0;
     for (int i = 0; i < 8; ++i)
         if (mask & (1 << i))
         {
@@ -862,6 +954,10 @@ void fit_gboost(vh::rng_t& rng)
     {
     if (pass > 0) ctx.what += " REFIT-of-the-same-model-object";
     ml::result_t result;
+    // extension stage: the state the model object is in when fit() is called (empty on a fresh object, the first fit's model on a re-fit)
+    const auto asm_prev_bias = biasstr(model.bias());
+    const auto asm_prev_ws   = wsstr(model.wlearners());
+    const auto asm_prev_n    = model.wlearners().size();
     try { result = model.fit(dataset, samples, *loss, fit_params); }
     catch (const std::exception& e)
     {
@@ -988,6 +1084,118 @@ void fit_gboost(vh::rng_t& rng)
             fail("FIT evaluate() differs from the recomputation at sample " + std::to_string(samples(i)) + " ;; " + ctx.what);
             break;
         }
+
+    // ---- extension stage "assemble": the fold models of the optimum trial, the final model, per-learner predictions ----
+    {
+        ++g_asm;
+        if (pass > 0) ++g_asm_refits;
+        const auto id = std::to_string(g_asm);
+        const auto no = ::nano::size(dataset.target_dims());
+        // at most 32 samples, evenly spaced (every theorem is per sample)
+        std::vector<tensor_size_t> pick;
+        const auto stride = std::max<tensor_size_t>(1, (all.size() + 31) / 32);
+        for (tensor_size_t i = static_cast<tensor_size_t>(g_asm) % stride; i < all.size(); i += stride) pick.push_back(i);
+        const auto chosen = mk_indices(pick);
+        bool       any_ill = gbfinal.ill;
+        for (const auto& o : fold_outputs[static_cast<size_t>(opt)]) any_ill = any_ill || o.ill;
+        std::printf("ASM %s no=%" PRId64 " ns=%" PRId64 " folds=%" PRId64 " trials=%" PRId64 " opt=%" PRId64 " mergeable=%d ill=%d refit=%d ;; %s\n", id.c_str(),
+                    static_cast<int64_t>(no), static_cast<int64_t>(chosen.size()), static_cast<int64_t>(folds), static_cast<int64_t>(trials),
+                    static_cast<int64_t>(opt), mergeable ? 1 : 0, any_ill ? 1 : 0, pass, ctx.what.c_str());
+        std::printf("ASMPREV %s | %s | %s\n", id.c_str(), asm_prev_bias.c_str(), asm_prev_ws.c_str());
+        size_t       fold_learners = 0;
+        tensor1d_t   bias_sum(no);
+        bias_sum.zero();
+        bool         have_all = true;
+        for (tensor_size_t fold = 0; fold < folds; ++fold)
+        {
+            const auto* pg = std::any_cast<gboost::result_t>(&result.extra(opt, fold));
+            if (pg == nullptr) { have_all = false; continue; }
+            fold_learners += pg->m_wlearners.size();
+            if (pg->m_bias.size() == no) bias_sum.vector() += pg->m_bias.vector();
+            std::printf("ASMFOLD %s %" PRId64 " %" PRId64 " | %s | %s | %s\n", id.c_str(), static_cast<int64_t>(fold),
+                        static_cast<int64_t>(pg->m_statistics.size<0>() - 1), biasstr(pg->m_bias).c_str(), wsstr(pg->m_wlearners).c_str(),
+                        predsstr(dataset, all, chosen, pg->m_wlearners).c_str());
+        }
+        // predict() into a fresh buffer and into a buffer that holds something else: the row must be assigned, not accumulated into
+        const auto clean = model.predict(dataset, all);
+        tensor4d_t dirty(cat_dims(all.size(), dataset.target_dims()));
+        dirty.full(7.25);
+        model.predict(dataset, all, dirty.tensor());
+        std::printf("ASMFINAL %s | %s | %s | %s | %s | %s\n", id.c_str(), biasstr(model.bias()).c_str(), wsstr(model.wlearners()).c_str(),
+                    predsstr(dataset, all, chosen, model.wlearners()).c_str(), rowsstr(clean, chosen).c_str(), rowsstr(dirty, chosen).c_str());
+        g_lines += 3 + folds;
+        // the cut-back on the real gboost::result_t with the learners this fit produced (repetitions: mergeable pairs, in any position)
+        {
+            std::vector<const wlearner_t*> from;
+            for (tensor_size_t fold = 0; fold < folds; ++fold)
+                if (const auto* pg = std::any_cast<gboost::result_t>(&result.extra(opt, fold)); pg != nullptr)
+                    for (const auto& w : pg->m_wlearners) from.push_back(w.get());
+            for (int rep = 0; rep < 2 && !from.empty(); ++rep)
+            {
+                const auto n = rng.range(1, 9);
+                auto       res = gboost::result_t{nullptr, nullptr, nullptr, static_cast<tensor_size_t>(n)};
+                // a few distinct learners, so that equal ones meet
+                const auto distinct = rng.range(1, 4);
+                std::vector<const wlearner_t*> few;
+                for (int64_t k = 0; k < distinct; ++k) few.push_back(from[static_cast<size_t>(rng.range(0, static_cast<int64_t>(from.size()) - 1))]);
+                for (int64_t k = 0; k < n; ++k) res.m_wlearners.emplace_back(few[static_cast<size_t>(rng.range(0, distinct - 1))]->clone());
+                const auto round  = static_cast<tensor_size_t>(rng.range(0, n));
+                const auto before = wsstr(res.m_wlearners);
+                // sum of the predictions of the first `round` learners
+                tensor4d_t want(cat_dims(all.size(), dataset.target_dims())), wmag(cat_dims(all.size(), dataset.target_dims())), tmp(cat_dims(all.size(), dataset.target_dims()));
+                want.zero();
+                wmag.zero();
+                for (tensor_size_t k = 0; k < round; ++k)
+                {
+                    tmp.zero();
+                    res.m_wlearners[static_cast<size_t>(k)]->predict(dataset, all, tmp.tensor());
+                    for (tensor_size_t i = 0; i < tmp.size(); ++i) want.data()[i] += tmp.data()[i], wmag.data()[i] += std::fabs(tmp.data()[i]);
+                }
+                res.done(round);
+                std::printf("ASMCUT %s %" PRId64 " %" PRId64 " | %s | %s\n", id.c_str(), static_cast<int64_t>(round), static_cast<int64_t>(res.m_statistics.size<0>()),
+                            before.c_str(), wsstr(res.m_wlearners).c_str());
+                ++g_lines;
+                ++g_asm_cuts;
+                ++g_fit_checks;
+                tensor4d_t got(cat_dims(all.size(), dataset.target_dims()));
+                got.zero();
+                for (const auto& w : res.m_wlearners) w->predict(dataset, all, got.tensor());
+                bool bad = static_cast<tensor_size_t>(res.m_wlearners.size()) > round || res.m_statistics.size<0>() != round + 1;
+                for (tensor_size_t i = 0; i < got.size() && !bad; ++i)
+                    bad = std::isfinite(want.data()[i]) && !(std::fabs(got.data()[i] - want.data()[i]) <= 1e-9 * (1.0 + wmag.data()[i]));
+                if (bad)
+                    fail("ASM gboost::result_t::done(" + std::to_string(round) + ") on " + before + " keeps " + wsstr(res.m_wlearners) + " with " +
+                         std::to_string(res.m_statistics.size<0>()) + " statistics rows: not (the merge of) the learners of the first " + std::to_string(round) +
+                         " rounds ;; " + ctx.what);
+            }
+        }
+        // direct oracles on the implementation (independent of the Coq model)
+        ++g_fit_checks;
+        for (tensor_size_t i = 0; i < clean.size(); ++i)
+            if (!same_bits(clean.data()[i], dirty.data()[i]) && !(std::isnan(clean.data()[i]) && std::isnan(dirty.data()[i])))
+            {
+                fail("ASM predict() into a buffer holding 7.25 gives " + vh::hexf(dirty.data()[i]) + " at output " + std::to_string(i) + " but " +
+                     vh::hexf(clean.data()[i]) + " into a zeroed buffer: the outputs are accumulated into, not assigned ;; " + ctx.what);
+                break;
+            }
+        if (have_all)
+        {
+            ++g_fit_checks;
+            for (tensor_size_t o = 0; o < no; ++o)
+                if (model.bias().size() != no || !close_to(model.bias()(o), bias_sum(o) / static_cast<double>(folds), 1e-12))
+                {
+                    fail("ASM final bias " + biasstr(model.bias()) + " is not the average of the " + std::to_string(folds) + " fold biases (sum " + biasstr(bias_sum) +
+                         ") of trial " + std::to_string(opt) + " ;; " + ctx.what);
+                    break;
+                }
+            // learners: all the fold learners, fewer only through merging; nothing of the model the object held before
+            const auto nf = model.wlearners().size();
+            if (nf < fold_learners) ++g_asm_merged;
+            if (nf > fold_learners || (!mergeable && nf != fold_learners))
+                fail("ASM the final model has " + std::to_string(nf) + " weak learners, the fold models of trial " + std::to_string(opt) + " have " +
+                     std::to_string(fold_learners) + " together (the object held " + std::to_string(asm_prev_n) + " before fit) ;; " + ctx.what);
+        }
+    }
     std::printf("FIT gboost trials=%" PRId64 " folds=%" PRId64 " opt=%" PRId64 " mean_rounds=%.2f early_stopped=%ld/%" PRId64 " final_learners=%zu ;; %s\n",
                 static_cast<int64_t>(trials), static_cast<int64_t>(folds), static_cast<int64_t>(opt),
                 static_cast<double>(rounds_total) / static_cast<double>(trials * folds), early, static_cast<int64_t>(trials * folds),
@@ -1222,6 +1430,10 @@ void fit_search(vh::rng_t& rng, bool thorough)
     for (int i = 0; i < n; ++i)
     {
         g_force_constant_target = i == 1 || i == 2 || i == 4; // two boosting fits and a linear one on constant targets in every run
+        // extension stage: pools whose fold models certainly / never merge in the final model (1 = affine, 8 = dense table, 2 = stump,
+        // 4 = hinge, 32 = k-split table): the outer loop of wlearner::merge stops at the first learner that merges with nobody
+        static const int pools[] = {1, 9, 2, 8, 3, 1 | 32, 8 | 32, 6};
+        if (i % 3 != 2 && i % 4 == 3) g_force_pool_mask = pools[(i / 4) % 8];
         if (i % 3 == 2) fit_linear(rng);
         else fit_gboost(rng);
     }
@@ -1249,8 +1461,9 @@ int main(int argc, char** argv)
     if (only == "all" || only == "fit") fit_search(rng, thorough);
 
     std::printf("DONE lines=%ld fails=%ld es_calls=%ld es_stops=%ld es_train_exits=%ld es_snapshots=%ld es_waits=%ld loops=%ld "
-                "fits=%ld fit_checks=%ld histories=%ld illconditioned_models_skipped=%ld stdev_not_comparable=%ld stdev_nan=%ld stdev_nan_in_fits=%ld\n",
+                "fits=%ld fit_checks=%ld histories=%ld illconditioned_models_skipped=%ld stdev_not_comparable=%ld stdev_nan=%ld stdev_nan_in_fits=%ld "
+                "asm=%ld asm_refits=%ld asm_final_merged=%ld asm_cuts=%ld\n",
                 g_lines, g_fails, g_es, g_es_stops, g_es_train_exits, g_es_accepts, g_es_waits, g_loops, g_fits, g_fit_checks,
-                g_hist, g_ill, g_sd_skipped, g_nan_fails, g_nan_fit_fails);
+                g_hist, g_ill, g_sd_skipped, g_nan_fails, g_nan_fit_fails, g_asm, g_asm_refits, g_asm_merged, g_asm_cuts);
     return 0;
 }
